@@ -81,10 +81,29 @@ class World:
             return rel.transferred_to(self.eng[c["dest"]])
         if f == "mat":
             return rel.materialized(c["name"])
-        if f == "join":
+        if f in ("join", "pjoinl"):
             p = c["p"]
-            return rel.join(self.t2, None if p == {"p": "lit", "v": True} else build.pred(p), backtrack=c["backtrack"], transfer=c["transfer"])
+            fixed = self.t2 if c.get("fixed", "T2") == "T2" else self.t2.without_duplicates().with_only_columns(build.tags(("a",)))
+            pred = None if p == {"p": "lit", "v": True} else build.pred(p)
+            before = None if pred is None else frozenset(pred.columns_required)
+            if f == "join":
+                res = rel.join(fixed, pred, backtrack=c["backtrack"], transfer=c["transfer"])
+            else:
+                from lsst.daf.relation import Predicate
+                from lsst.daf.relation import _operations as ops
+                res = ops.Join(pred if pred is not None else Predicate.literal(True)).partial(fixed, is_lhs=True).apply(
+                    rel, backtrack=c["backtrack"], transfer=c["transfer"])
+            if pred is not None and frozenset(pred.columns_required) != before:
+                raise PredicateMutated(f"the join changed its predicate's columns_required from {sorted(map(str, before))} "
+                                       f"to {sorted(map(str, pred.columns_required))}")
+            return res
+        if f == "chainself":
+            return rel.chain(rel)
         raise MachineryError(f"unknown call {c}")
+
+
+class PredicateMutated(Exception):
+    """A factory call changed a predicate object handed to it (relations and expressions are immutable values)."""
 
 
 def collect_nodes(r):
@@ -152,6 +171,9 @@ def replay_state(st: dict, out: dict, want_event: bool, want_rejects: bool, want
             before = rel
             last = c
             rel = w.call(c, rel)
+    except PredicateMutated as exc:
+        V(["C09", "C13", "C20"], f"a factory call is not side-effect free: {exc}", call=last)
+        return
     except Exception as exc:  # noqa: BLE001
         props = ["C03"] if type(exc).__name__ == "ColumnError" else ["C03", "C08"]
         V(props, f"a call the specification accepts raised {type(exc).__name__}: {str(exc)[:300]}", call=last)
@@ -221,7 +243,14 @@ def replay_state(st: dict, out: dict, want_event: bool, want_rejects: bool, want
         got, processed = evaluate(w, rel, proc)
         known = False
         judged = same_shape or not _has_slice(real_tree)
-        if not judged:
+        if not judged and st["bdet"]:
+            # the tree differs from the model's and contains slices: the model's LIST verdict may lean on where the
+            # model places operations, but a determined multiset must be returned by any correct tree
+            cnt["bag_compared_shape_drift"] = cnt.get("bag_compared_shape_drift", 0) + 1
+            if bag(got) != bag(exp) and not _kf2(st, real_tree):
+                V(["C03", "C07"], "rows after processing differ (as a multiset) from applying the operations at the root",
+                  observed=got, expected=exp)
+        elif not judged:
             cnt["rows_not_judged_shape_drift"] = cnt.get("rows_not_judged_shape_drift", 0) + 1
         elif st["ldet"]:
             cnt["list_compared"] = cnt.get("list_compared", 0) + 1
@@ -462,6 +491,13 @@ def run(tier: str, seed: int) -> list[Part]:
     p17.notes.append("with the pinned-commit rule (a failed backtrack rebuilds a payloaded transfer) TLC re-derives finding F17 "
                      "(ProcessedBaseSound violated)")
     parts.append(p17)
+    kf21 = run_tlc("MC_Multi.tla", "MultiKF21.cfg", expect_violation=True, heap="3g")
+    if kf21.violated != "NoPlacementColumnError":
+        raise MachineryError(f"companion MultiKF21 (Calculation.commute as at the pinned commit) no longer violates NoPlacementColumnError (got {kf21.violated})")
+    p21 = Part(name="multiengine:F21-companion", cfg="MultiKF21.cfg", states=max(kf21.distinct, 1), transitions=max(kf21.generated, 1))
+    p21.notes.append("with the pinned-commit rule TLC re-derives finding F21: a calculation whose tag an earlier projection dropped is refused "
+                     "with ColumnError when a preferred engine is given")
+    parts.append(p21)
     kf20 = run_tlc("MC_Multi.tla", "MultiKF20.cfg", expect_violation=True, heap="3g")
     if kf20.violated != "ContentKept":
         raise MachineryError(f"companion MultiKF20 (PartialJoin.commute as at the pinned commit) no longer violates ContentKept (got {kf20.violated})")
